@@ -8,4 +8,9 @@ theorem gen_read_entries_eq (c : Ctx) (s : Scope) (i : Nat) (q : Bytes) :
     getAtIndexGen c s i = c.getAtIndex s i ∧ getKeyAtIndexGen c s i = c.getKeyAtIndex s i ∧
     getObjPropGen c s q = c.getObjProp s q := ⟨rfl, rfl, rfl⟩
 
+/-- the interned-name lookup dispatches like the lookup by name (the model's `getInternedObjProp` hands the
+    interned bytes to `getObjProp` once the scope is accepted) -/
+theorem gen_interned_entry_eq (c : Ctx) (s : Scope) (q : Bytes) :
+    getInternedObjPropGen c s q = c.getObjProp s q := rfl
+
 end SfVerif
